@@ -6,6 +6,11 @@ OPS = ["add", "sub", "mul", "div", "add_f", "sub_f", "mul_f", "div_f", "neg", "n
        "product", "mul_add", "from_f", "zero", "one"]
 
 
+def nested_forms_run(k, n, m, inner):
+    return machine_run(k, n, m, "OpsForms", depth=3, mant=53, props=False, inner=inner, loadset="LoadSetNestedQuick", workers=3,
+                       tag="_forms", timeout=1200)
+
+
 def forms_run():
     return run_tlc("Forms.tla", cfg(invariants=["TableSane", "ExportForms"]), "forms", workers=1, timeout=300)
 
@@ -17,8 +22,21 @@ def run(tier):
                            "one case = (concrete type, operation, syntactic form); TLC checks FormsAgree (every form equals "
                            "the canonical dual-dual operation with the scalar lifted) on every transition and the harness "
                            "replays every behaviour bit-exactly through the form named in the event",
-                           extra_jobs=[forms_run])
+                           extra_jobs=[forms_run] + [lambda k=k, n=n, m=m, i=i: nested_forms_run(k, n, m, i) for (k, n, m, i) in NESTED_THOROUGH])
     fm = extra[0]
+    # the forms on nested types: the scalar-operand forms multiply a T-valued part by an F scalar
+    nforms = set()
+    for res in extra[1:]:
+        chk.add_tlc(res, "calculator behaviours of a nested type (forms)")
+        if res.violated:
+            chk.model_violation(res, "MachineN")
+            continue
+        rep = replay(res)
+        absorb_replay(chk, rep, "replay of TLC behaviour (form, nested type)")
+        nforms |= {c.split("|", 1)[1] for c in rep["per_case"]}
+    for need in ("mul_f|op", "div_f|assign", "add_f|op", "sum|owned", "product|ref", "mul|assign", "from_f|"):
+        if need not in nforms:
+            raise ToolError("vacuity: nested types never exercised the form %s" % need)
     chk.add_tlc(fm, "table of the 14 FromPrimitive entry points x boundary arguments (+-2^e + o up to 2^128 - 1) and the 16 "
                     "FloatConst constants")
     if fm.violated:
